@@ -7,6 +7,20 @@ HERE = os.path.dirname(os.path.dirname(os.path.abspath(__file__)))
 ALL = ["C%02d" % i for i in range(1, 21)]
 
 CLAIMED = {
+    "C17": dict(
+        category="model_checking",
+        text=("UDQPrec.tla: the parser's recursive-descent levels transcribed and checked by TLC against precedence "
+              "climbing with the property's table on all operator sequences of up to 4 operators (with one parenthesised "
+              "pair).  UDQEval.tla / Oracle_UDQHist.tla are the reference meaning (exact rationals; element-wise "
+              "operations, scalar broadcasting, undefined propagation, reductions, elemental functions, set unions; "
+              "ASSIGN/DEFINE/UPDATE histories over report steps).  TLC evaluates the reference on every generated DEFINE "
+              "and history; the real UDQDefine::eval and the real Schedule + per-step UDQConfig::eval with one "
+              "SummaryState/UDQState are run on the same inputs and every element is compared with TLC's value."),
+        design_ref="DESIGN.md section 5, C17",
+        note=("Trusted: TLC as oracle, the seeded generator's type discipline, 1e-9 relative agreement between doubles and "
+              "exact rationals.  Transcendental functions and chained ^ / comparisons / unions are outside the domain."),
+        technique="TLA+ reference evaluator run by TLC as oracle for replay into the real classes; TLC-checked precedence transcription",
+    ),
     "C18": dict(
         category="model_checking",
         text=("ActionCond.tla contains the reference meaning of a condition (truth value; match set = union/intersection "
